@@ -995,6 +995,7 @@ pub fn c20_case(ctx: &mut Ctx, rng: &mut Rng) {
     // model.def
     let mut model = String::new();
     let mut table: HashMap<String, f64> = HashMap::new();
+    let mut decoys: std::collections::HashSet<String> = std::collections::HashSet::new();
     // now and then weights whose scaled cost exceeds 16 bits (the conversion keeps 32-bit costs)
     let big_weights = rng.chance(0.15);
     let wstr = |rng: &mut Rng| -> String {
@@ -1021,6 +1022,25 @@ pub fn c20_case(ctx: &mut Ctx, rng: &mut Rng) {
                         let w = wstr(rng);
                         model += &format!("{w}\t{key}\n");
                         table.insert(key, w.parse().unwrap());
+                    }
+                }
+            }
+        }
+        // lines whose text is what a template WOULD expand to if its optional references were ordinary
+        // ones ('*' filled in): such a template does not apply, so these lines must never contribute
+        if lt.contains('?') || rt.contains('?') {
+            let (lt2, rt2) = (lt.replace("?[", "["), rt.replace("?[", "["));
+            for r in 1..nright {
+                for l in 1..nleft {
+                    let applies = ref_expand(lt, 'L', &right_ids[r], 0).is_some() && ref_expand(rt, 'R', &left_ids[l], 0).is_some();
+                    if !applies && rng.chance(0.5) {
+                        if let (Some(a), Some(b)) = (ref_expand(&lt2, 'L', &right_ids[r], 0), ref_expand(&rt2, 'R', &left_ids[l], 0)) {
+                            let key = format!("{a}/{b}");
+                            if !table.contains_key(&key) && !decoys.contains(&key) {
+                                model += &format!("{}\t{key}\n", wstr(rng));
+                                decoys.insert(key);
+                            }
+                        }
                     }
                 }
             }
